@@ -62,7 +62,7 @@ def gen_cfg(rng):
 def gen_req(rng):
     scheme = rng.choice(["http", "https", "http", "ws", "wss"])
     host = rng.choice(["a.example", "b.example", "10.1.2.3", "host-with-dash.example"])
-    port = rng.choice([None, None, 8080, 8443])
+    port = rng.choice([None, None, 8080, 8443, 80, 443])
     names = [b"X-Caller", b"x-proxy-tag", b"Accept", b"User-Agent", b"Authorization", b"proxy-authorization", b"Cookie"]
     hs = [(rng.choice(names), b"CL" + bytes(rng.choice(b"uvwxyz") for _ in range(4))) for _ in range(rng.randint(0, 4))]
     body = None if rng.random() < 0.5 else b"BODY" + bytes(rng.choice(b"0123456789") for _ in range(rng.randint(0, 20)))
